@@ -439,3 +439,56 @@ func tokenize(s string) []string {
 	flush()
 	return toks
 }
+
+// TermValue returns the value of an integer term in the current model
+// (call right after a Sat verdict).
+func (s *Solver) TermValue(t *Term) (uint64, error) {
+	s.prepare(t)
+	s.send("(get-value (" + s.render(t) + "))")
+	depth := 0
+	var sb strings.Builder
+	started := false
+	for !started || depth > 0 {
+		line, err := s.readLine()
+		if err != nil {
+			return 0, err
+		}
+		if strings.HasPrefix(line, "(error") {
+			return 0, fmt.Errorf("get-value: %s", line)
+		}
+		for _, c := range line {
+			if c == '(' {
+				depth++
+				started = true
+			} else if c == ')' {
+				depth--
+			}
+		}
+		sb.WriteString(line)
+		sb.WriteByte(' ')
+	}
+	toks := tokenize(sb.String())
+	// ( ( <term tokens...> value ) ) : the value is the last item before the two closing parens
+	if len(toks) < 4 {
+		return 0, fmt.Errorf("get-value: short reply %q", sb.String())
+	}
+	end := len(toks) - 2
+	// value may be "(- n)" or "(_ bvN w)" or atom
+	start := end - 1
+	if toks[start] == ")" {
+		d := 0
+		for i := start; i >= 0; i-- {
+			if toks[i] == ")" {
+				d++
+			} else if toks[i] == "(" {
+				d--
+				if d == 0 {
+					start = i
+					break
+				}
+			}
+		}
+	}
+	v, _, err := parseValue(toks, start)
+	return v, err
+}
